@@ -19,7 +19,7 @@ DONE = {
  "C09": ("enum", "exploration", "bounded-exhaustive enumeration of frames and byte strings against an independent reference codec written from PROTOCOL.md",
          "exhaustive product of boundary field values for encoding (all constructors, vectored splits) and every byte string over a boundary alphabet up to length L plus all truncations for decoding; nothing sampled",
          "payload bytes outside the boundary alphabet are not enumerated (decoder never branches on them); release semantics"),
- "C12": ("loom", "model_checking", "loom (DPOR, C11 memory model) over in-crate models of the real MuxStream/EstablishedStreamData code, each model to exhaustion",
+ "C12": ("loom", "model_checking", "loom (DPOR, C11 memory model) over in-crate models of the real MuxStream/EstablishedStreamData code (and, in m25, of the connection task's handling of an Acknowledge), each model to exhaustion; plus part C12X: two real threads in ONE forced schedule per case (a grant handled while another thread holds the flow table's write lock inside the flow-id draw), which loom's RwLock model cannot produce",
          "every interleaving of the atomic operations of a writer poll sequence against acknowledge and/or close on other threads; lost wake-ups surface as loom deadlocks, credit conservation asserted after join",
          "loom's own AtomicWaker/Mutex/RwLock models stand in for futures-util's and parking_lot's via the crate's loom shim; tokio channels not instrumented"),
 }
